@@ -233,16 +233,19 @@ def prune_files_by_bounds(
             col_name_to_id[field_name] = field_id
 
     # 32-bit float columns: the bounds are float32 values widened to Python
-    # floats (0.1 is stored as 0.10000000149...), while the row-level engine
-    # casts the filter value to the column type. Compare like with like, or a
-    # file whose only value is exactly the one asked for is pruned away.
+    # floats (0.1 is stored as 0.10000000149...). For IN the row-level engine
+    # casts the value set to the column type, so compare like with like - or a
+    # file whose only value is exactly the one asked for is pruned away. The
+    # comparison operators (== != < <= > >=) are evaluated by the engine in
+    # double precision against the widened value: their filter values must
+    # stay doubles here as well.
     float32_columns = {
         str(f.get("name")) for f in schema.fields if f.get("type") == "float"
     }
     if float32_columns:
         expressions = [
             FilterExpression(e.column, e.op, _as_float32(e.value))
-            if e.column in float32_columns else e
+            if e.column in float32_columns and e.op == FilterOp.IN else e
             for e in expressions
         ]
 
